@@ -33,9 +33,14 @@ class Interp1d:
         self.kind = kind
         if isinstance(fill_value, str):
             raise Unsupported("interp1d extrapolate")
+        # SciPy accepts a (below, above) pair
+        if isinstance(fill_value, tuple) and len(fill_value) == 2:
+            self.fill_below, self.fill_above = fill_value
+        else:
+            self.fill_below = self.fill_above = fill_value
         self.fill = fill_value
         self.bounds_error = (bounds_error is None and True) or bool(bounds_error)
-        if bounds_error is None and not (isinstance(fill_value, float) and math.isnan(fill_value)):
+        if bounds_error is None and not (isinstance(fill_value, float) and math.isnan(fill_value)) and not isinstance(fill_value, tuple):
             self.bounds_error = False
         if not assume_sorted:
             # sort by x (forks on the order); mir_eval passes sorted times
@@ -51,10 +56,12 @@ class Interp1d:
         n = len(x)
         out = []
         for v in xs.reshape(-1):
-            if bool(lt(v, x[0])) or bool(lt(x[n - 1], v)):
+            below = bool(lt(v, x[0]))
+            if below or bool(lt(x[n - 1], v)):
                 if self.bounds_error:
                     raise ValueError("A value in x_new is outside the interpolation range.")
-                out.append(self.fill if is_sym(self.fill) else _np.asarray(self.fill)[()])
+                fv = self.fill_below if below else self.fill_above
+                out.append(fv if is_sym(fv) else _np.asarray(fv)[()])
                 continue
             # largest i with x[i] <= v
             i = 0
